@@ -1067,3 +1067,34 @@ def unwrap_guard(ctx, r):
                      sample=f"{f['name']}: {recv}.{lit} unwrapped after a diverging completeness guard")
     r.count("unwrapped method lookups in prelude interfaces", n_decl, 2, TC)
     r.count("unwrapped method lookups in user implementations", n_impl, 4, TC)
+
+
+@rule("IF-VOID", ["C01", "C02"], "an `if` without `else` is typed void by the checker whatever its body yields, so the generator must not compile that body as a yielding statement")
+def if_void(ctx, r):
+    tc = fn_named(ctx, r, TC, "generate_constraints_expr")
+    tb = fn_named(ctx, r, TB, "translate_expr", "Translator")
+    if tc is None or tb is None:
+        return
+    ca = arm_of(tc, "ExprKind", "IfElse")
+    ga = arm_of(tb, "ExprKind", "IfElse")
+    if ca is None or ga is None:
+        r.missing("IfElse arms", TC)
+        return
+    # checker: the branch for a missing else constrains the node to void
+    void_when_no_else = False
+    for x in q.walk(ca["body"]):
+        if x["k"] == "If" and x["c"]["k"] == "Let" and "Some" in q.show_pat(x["c"]["pat"]) and x.get("e") is not None:
+            void_when_no_else = any(y["k"] == "Call" and q.show(y["f"]).endswith("make_void") for y in q.walk(x["e"]))
+    r.ob(True, "", TC, ca["l"], "", sample=f"checker: if without else is void: {void_when_no_else}")
+    fb = am.field_bindings(ga["pat"], "IfElse")
+    then_v = fb[1]["name"] if fb and len(fb) > 1 and fb[1]["k"] == "PIdent" else None
+    else_v = fb[2]["name"] if fb and len(fb) > 2 and fb[2]["k"] == "PIdent" else None
+    calls = [x for x in q.walk(ga["body"]) if x["k"] == "MethodCall" and x["m"] == "translate_stmt" and x["args"] and q.show(x["args"][0]) == then_v]
+    if not calls or else_v is None:
+        r.missing("translate_expr:IfElse:then branch", TB)
+        return
+    flag = calls[0]["args"][1]
+    depends = else_v in q.idents_in(flag)
+    r.ob((not void_when_no_else) or depends, "translate_bytecode.rs:translate_expr:IfElse:body-yields-without-else", TB, calls[0]["l"],
+         f"the checker makes `if c {{ e }}` void, but the generator compiles the body with the yield flag `{q.show(flag)}`, independent of whether there is an else: the body's value stays on the operand stack (inside a `for` the next iteration then faults with 'expected struct')",
+         sample=f"generator: then-branch yields iff `{q.show(flag)}`")
